@@ -8,6 +8,7 @@ mod verif_queuing {
     use super::*;
     use crate::verif_shim::thread::sequential::SPAWNED;
     use std::sync::atomic::AtomicUsize;
+    use crossbeam_channel::WOULD_BLOCK;
 
     static DELIVERED: AtomicUsize = AtomicUsize::new(0);       // number of task invocations
     static ORDER: AtomicUsize = AtomicUsize::new(0);           // base-8 digits: first byte codes of delivered strings, in order
@@ -245,26 +246,28 @@ mod verif_queuing {
                 // the background thread continues from wherever it was blocked
                 w.stopped.store(false, Ordering::SeqCst);
                 w.run();
-                assert!(DELIVERED.load(Ordering::SeqCst) == $n, "[C09] every metric accepted before the last drop is still handed to the wrapped sink");
+                assert!(DELIVERED.load(Ordering::SeqCst) == $n, "[C08,C09] every metric accepted before the last drop is still handed to the wrapped sink");
                 assert!(ORDER.load(Ordering::SeqCst) == $order, "[C08,C09] in acceptance order");
-                assert!(w.stopped.load(Ordering::SeqCst), "[C09] after draining, the run loop terminates");
-                // and it terminates for good: re-entering (e.g. after a panic restart) returns at once
+                assert!(w.stopped.load(Ordering::SeqCst) && WOULD_BLOCK.load(Ordering::SeqCst) == 0, "[C09] after draining, the run loop terminates by itself (it does not park in recv() again)");
+                // and it terminates for good: a restart after a panic on the LAST metric returns at once too
+                w.stopped.store(false, Ordering::SeqCst);
                 w.run();
                 assert!(DELIVERED.load(Ordering::SeqCst) == $n, "[C09,C11] a stopped worker delivers nothing twice");
+                assert!(w.stopped.load(Ordering::SeqCst) && WOULD_BLOCK.load(Ordering::SeqCst) == 0, "[C09,C11] a worker restarted while a stop is pending and nothing is queued ends at once instead of parking forever");
                 kani::cover!(cap.map_or(false, |c| $n == c) || $n == 0, "completely full queue at stop (or idle worker)");
                 kani::cover!(cap.is_none(), "unbounded queue at stop");
                 std::mem::forget(w);
             }
         };
     }
-    //@H name=c09_stop_0 props=C09,C20 bound="capacity 1..=3 or unbounded, empty queue" fn=Worker::stop + Worker::run :: stop on an idle worker: the loop ends, nothing blocks
+    //@H name=c09_stop_0 props=C08,C09,C20 bound="capacity 1..=3 or unbounded, empty queue" fn=Worker::stop + Worker::run :: stop on an idle worker: the loop ends, nothing blocks
     stop_at!(c09_stop_0, 0, 0);
-    //@H name=c09_stop_1 props=C09,C20 bound="capacity 1..=3 or unbounded, 1 queued (full when capacity 1)" fn=Worker::stop + Worker::run :: stop with 1 metric queued, including the completely full capacity-1 queue: delivered, then the loop ends
+    //@H name=c09_stop_1 props=C08,C09,C20 bound="capacity 1..=3 or unbounded, 1 queued (full when capacity 1)" fn=Worker::stop + Worker::run :: stop with 1 metric queued, including the completely full capacity-1 queue: delivered, then the loop ends
     stop_at!(c09_stop_1, 1, 1);
-    //@H name=c09_stop_2 props=C09,C20 bound="capacity 2..=3 or unbounded, 2 queued (full when capacity 2)" fn=Worker::stop + Worker::run :: stop with 2 metrics queued, including the completely full capacity-2 queue: both delivered in order, then the loop ends
+    //@H name=c09_stop_2 props=C08,C09,C20 bound="capacity 2..=3 or unbounded, 2 queued (full when capacity 2)" fn=Worker::stop + Worker::run :: stop with 2 metrics queued, including the completely full capacity-2 queue: both delivered in order, then the loop ends
     stop_at!(c09_stop_2, 2, 8 + 2);
 
-    //@H name=c09_stop_terminates_thread props=C09,C11,C20 bound="capacity 1..=2, full queue" fn=spawn_worker_in_thread :: the spawned closure creates the sentinel, runs the worker and cancels the sentinel: a normal stop ends the thread without restart and without counting a panic
+    //@H name=c09_stop_terminates_thread props=C08,C09,C11,C20 bound="capacity 1..=2, full queue" fn=spawn_worker_in_thread :: the spawned closure creates the sentinel, runs the worker and cancels the sentinel: a normal stop ends the thread without restart and without counting a panic
     #[kani::proof]
     #[kani::unwind(6)]
     fn c09_stop_terminates_thread() {
@@ -277,7 +280,7 @@ mod verif_queuing {
         spawn_worker_in_thread(w.clone());
         assert!(SPAWNED.load(Ordering::SeqCst) == before + 1, "[C11] a normal return of the worker does not restart it");
         assert!(w.stats.panics() == 0, "[C11] the panic count equals the number of panics that occurred (none)");
-        assert!(DELIVERED.load(Ordering::SeqCst) == c && w.stopped.load(Ordering::SeqCst), "[C09] drained, then stopped");
+        assert!(DELIVERED.load(Ordering::SeqCst) == c && w.stopped.load(Ordering::SeqCst) && WOULD_BLOCK.load(Ordering::SeqCst) == 0, "[C08,C09] drained, then the thread ended by itself");
         assert!(Arc::strong_count(&w) == 1, "[C09] the thread released its reference to the worker when it ended");
         kani::cover!(true, "end");
         std::mem::forget(w);
@@ -332,8 +335,24 @@ mod verif_queuing {
         w.stats.incr_drained();
         { let s = Sentinel::new(&w); drop(s); }     // unwinding drops the active sentinel
         assert!(DELIVERED.load(Ordering::SeqCst) == 1 && ORDER.load(Ordering::SeqCst) == 2, "[C11] only the panicking metric is consumed; the metric behind it is still delivered");
-        assert!(w.stopped.load(Ordering::SeqCst) && qlen(&w) == 0, "[C09] the pending stop still takes effect after the restart");
+        assert!(w.stopped.load(Ordering::SeqCst) && qlen(&w) == 0 && WOULD_BLOCK.load(Ordering::SeqCst) == 0, "[C09] the pending stop still takes effect after the restart: the thread ends instead of parking in recv()");
         assert!(w.stats.panics() == 1, "[C11] one panic counted");
+        kani::cover!(true, "end");
+        std::mem::forget(w);
+    }
+
+    //@H name=c11_panic_on_last_while_stop_pending props=C09,C11,C20 bound="capacity 1, full queue" fn=Sentinel::drop + Worker::run :: a panic on the LAST queued metric while a stop is pending on a full queue: the restarted worker finds nothing to do and ends (it must not park in recv() forever, which would keep the wrapped sink alive)
+    #[kani::proof]
+    #[kani::unwind(6)]
+    fn c11_panic_on_last_while_stop_pending() {
+        let w = recording_worker(Some(1));
+        prefill(&w, 1);
+        w.stop();                                   // queue full: the marker is refused, only the request is recorded
+        let _ = w.receiver.try_recv();              // the thread took the last metric and panicked inside the wrapped sink
+        w.stats.incr_drained();
+        { let s = Sentinel::new(&w); drop(s); }     // unwinding drops the active sentinel: restart
+        assert!(DELIVERED.load(Ordering::SeqCst) == 0 && w.stats.panics() == 1, "[C11] only the panicking metric is consumed; one panic counted");
+        assert!(w.stopped.load(Ordering::SeqCst) && WOULD_BLOCK.load(Ordering::SeqCst) == 0, "[C09] the restarted worker sees the pending stop and ends; it does not park in recv() forever");
         kani::cover!(true, "end");
         std::mem::forget(w);
     }
@@ -437,7 +456,7 @@ mod verif_queuing {
         std::mem::forget(r); std::mem::forget(q); std::mem::forget(w);
     }
 
-    //@H name=c09_last_drop_stops props=C09,C20 bound="capacity 1, full queue; history: emit, clone, drop both handles, worker resumes" fn=Drop of the last QueuingMetricSink handle :: dropping the LAST handle with a completely full queue requests the stop without blocking or running the wrapped sink; the worker drains and then stops
+    //@H name=c09_last_drop_stops props=C08,C09,C20 bound="capacity 1, full queue; history: emit, clone, drop both handles, worker resumes" fn=Drop of the last QueuingMetricSink handle :: dropping the LAST handle with a completely full queue requests the stop without blocking or running the wrapped sink; the worker drains and then stops
     #[kani::proof]
     #[kani::unwind(6)]
     fn c09_last_drop_stops() {
@@ -451,8 +470,8 @@ mod verif_queuing {
         drop(q2);                                   // last handle
         assert!(DELIVERED.load(Ordering::SeqCst) == 0, "[C09,C10] dropping a handle never runs the wrapped sink on the dropping thread");
         w.run();                                    // the background thread continues
-        assert!(DELIVERED.load(Ordering::SeqCst) == 1, "[C09] every metric accepted before the last drop is still handed to the wrapped sink");
-        assert!(w.stopped.load(Ordering::SeqCst) && qlen(&w) == 0, "[C09] then the background thread terminates");
+        assert!(DELIVERED.load(Ordering::SeqCst) == 1, "[C08,C09] every metric accepted before the last drop is still handed to the wrapped sink");
+        assert!(w.stopped.load(Ordering::SeqCst) && qlen(&w) == 0 && WOULD_BLOCK.load(Ordering::SeqCst) == 0, "[C09] then the background thread terminates (it does not park in recv() again)");
         kani::cover!(true, "end");
         std::mem::forget(r); std::mem::forget(w);
     }
